@@ -419,11 +419,9 @@ impl LineSplitter {
             }
         }
 
-        // Add the last field
-        if start < line.len() {
-            if let Ok(field) = std::str::from_utf8(&line.as_bytes()[start..]) {
-                self.buffer.push(field.to_string());
-            }
+        // Add the last field (it may be empty: "a," has two fields, "" has one, as with split())
+        if let Ok(field) = std::str::from_utf8(&line.as_bytes()[start..]) {
+            self.buffer.push(field.to_string());
         }
     }
 }
